@@ -212,7 +212,7 @@ pub fn fuzz(id: &str, data: &[u8]) {
             |c: &mut c11::Case| {
                 c.m = 1 + c.m % 64;
                 c.l = 1 + c.l % 4;
-                c.family %= 4;
+                c.family %= 6;
                 c.seq.iter_mut().for_each(|x| *x %= 9);
                 while c.seq.len() < c.l {
                     c.seq.push(c.seq.len() as u8 % 3);
